@@ -46,7 +46,7 @@ CLAIMED = {
     "C04": (
         "Bounded solver-based check: Pipeline.map(run_folder=F, parallel=False) on MAP-T templates x storage choices (file_array, dict, dict_sub, "
         "per-output mixes with tuple keys) with persist_memory symbolic, then load_outputs for every output (single and multi-name, twice) equals "
-        "the denotation for ALL integer inputs; RunInfo.load(F) restores inputs, defaults, output names, MapSpec strings, shapes, masks, internal "
+        "the denotation for ALL integer inputs (incl. a three-output function and root inputs that share a scope); RunInfo.load(F) restores inputs, defaults, output names, MapSpec strings, shapes, masks, internal "
         "shapes and the per-output storage choice; init_store of the reloaded object yields the same storage classes and geometry; loading is "
         "idempotent and runs no user function; an unpersisted memory storage does not reload values.",
         "Trusted: z3, CrossHair path exhaustion and builtin models; cloudpickle replaced by a token table on a real tmpfs directory; JSON encoded "
@@ -80,7 +80,7 @@ CLAIMED = {
     ),
     "C07": (
         "Bounded solver-based check: normalize_key and select_by_mask are confirmed over all paths for every mask of rank <= 3 with "
-        "unbounded integer keys and axis sizes; DictArray and FileArray operation sequences (two dumps, one read of every kind, "
+        "unbounded integer keys and axis sizes; DictArray and FileArray operation sequences (two dumps, one read of every kind - incl. keys whose axes are independently ints or one-element / empty / open / strided slices -, "
         "optional persist/reopen) are confirmed against a pure-Python masked-array reference for the listed geometries with symbolic "
         "keys, values and linear indices. Counterexamples are replayed concretely before being reported.",
         "Trusted: z3, CrossHair's path exhaustion and builtin models, the token-table stand-in for cloudpickle on a real tmpfs "
@@ -128,8 +128,8 @@ CLAIMED = {
     "C12": (
         "Bounded solver-based check that ill-formed requests are rejected before any user function runs and without altering an existing run "
         "folder: zipped inputs of symbolic lengths (rejected iff unequal), list / ndarray of symbolic rank for a 2-D MapSpec input, every subset "
-        "of supplied root arguments plus a surplus name, three symbolic defaults of a shared parameter (rejected iff they differ), registered "
-        "and unknown storage names, executor with parallel=False, missing / short internal shapes, and nine structural faults (duplicate "
+        "of supplied root arguments plus a surplus name (fresh or named like an output), three symbolic defaults of a shared parameter (rejected iff they differ), registered "
+        "and unknown storage names (as a string and anywhere in a per-output dict), executor with parallel=False, missing / short internal shapes, and nine structural faults (duplicate "
         "outputs, output named like an own parameter, cycle, inconsistent axes, MapSpec/function mismatch); valid neighbours are accepted and "
         "give the denoted result.",
         "Trusted: z3, CrossHair path exhaustion and builtin models; run-folder snapshots compare names, JSON content and pickled objects. Outside: "
@@ -142,7 +142,7 @@ CLAIMED = {
         "three exception kinds (symbolic) during Pipeline.map (sequential and through a symbolic-order executor; dict / file_array) and during "
         "pipeline(...): the same type and args surface, the annotation names the failing function and its keyword arguments, no function that "
         "depends on the failing one is invoked, the call returns, the pipeline and the function expose an ErrorSnapshot whose reproduce() - also "
-        "after save_to_file/load_from_file - raises the same exception, and results completed before the failure are loadable.",
+        "after save_to_file/load_from_file - raises the same exception, and results completed before the failure are loadable; a second failure (also of the very same exception object) is annotated with its own arguments; with profile=True no thread started by the failing call is left running.",
         "Trusted: z3, CrossHair path exhaustion and builtin models; token pickle. Inputs are 0..1 because the annotation formats them. Outside: "
         "process pools, map_async, the exact text of messages.",
         "6 C13",
@@ -161,7 +161,7 @@ CLAIMED = {
     "C17": (
         "Bounded solver-based check of Sweep/MultiSweep/count_sweep against a list-comprehension definition: <= 3 keys (4 in the thorough tier), "
         "every partition of the keys into dims groups (and dims=None, reversed orders), list lengths 0..3 symbolic, elements / constants / "
-        "deriver inputs unbounded symbolic ints, optional constants, derivers, exclude; product of 2 and 3 sweeps, + / MultiSweep, "
+        "deriver inputs unbounded symbolic ints, optional constants, derivers, exclude; product of 2 and 3 sweeps, + / MultiSweep in six nesting forms, "
         "filtered_sweep, count_sweep. Three recorded findings are pinned to their isolating members (KNOWN-FINDING).",
         "Trusted: z3, CrossHair path exhaustion and builtin models. List lengths are realised (case split). Outside: > 4 keys, lists longer than 3, "
         "unhashable values, use_pandas, set_cache_for_sweep.",
@@ -171,7 +171,7 @@ CLAIMED = {
     "C18": (
         "Bounded solver-based check of lazy=True pipelines on the RUN-T function tables: for every output, ALL integer root arguments and every "
         "valid set of supplied intermediates, nothing runs before evaluate(), evaluate() equals the eager composition and the eager twin, every "
-        "needed function runs exactly once (diamonds, tuple outputs, repeated evaluate()); under construct_dag() the recorded graph is acyclic, "
+        "needed function runs exactly once (diamonds, tuple outputs, repeated evaluate(), producers that return None / 0 / empty containers); under construct_dag() the recorded graph is acyclic, "
         "its function nodes are exactly the needed functions and its edges (picker nodes contracted) exactly the producer-consumer pairs.",
         "Trusted: z3, CrossHair path exhaustion and builtin models. Under construct_dag() arguments are hashed by the task-graph cache, so values "
         "are 0..1 there. Outside: > 5 functions, lazy map.",
@@ -194,7 +194,7 @@ CLAIMED = {
         "Bounded solver-based check of to_hashable / memoize on values whose structure comes from a listed grammar (list, tuple, dict, "
         "OrderedDict, defaultdict, Counter, set, deque with/without maxlen, bytearray, nested one level; <= 3 elements) and whose leaves are "
         "unbounded symbolic ints: for every listed pair of structures key(v1) == key(v2) iff the values are equal and of the same types; keys "
-        "are hashable and stable; insertion order is (in)significant as documented; memoize returns a stored result only for equal arguments.",
+        "are hashable and stable; insertion order is (in)significant as documented; memoize returns a stored result only for equal arguments passed in the same way (twelve positional / keyword call shapes).",
         "Trusted: z3, CrossHair path exhaustion and builtin models; hash() of a symbolic leaf answered without realisation (S8). Outside: NumPy / "
         "pandas / pickled objects, cross-interpreter key equality, values embedding the conversion marker.",
         "6 C15",
